@@ -240,6 +240,22 @@ CHECKS["C10"] = (
     "(default findap on signals with non-zero sub-tolerance steps) excluded by signature and counted.",
     "3/C10")
 
+CHECKS["C11"] = (
+    "Hypothesis-generated logical contents x physical encodings written by an independent byte-level encoder "
+    "(refs/op4enc.py, refs/op2enc.py; no pyyeti code) + enumerated 2999/3000/3001 cut-over cases; decode "
+    "oracle = the encoder's logical content and byte bookkeeping (positions, directory, skip targets)",
+    "Generated-input search: OUTPUT4 files (binary single/double x 32/64-bit keys x both byte orders, ASCII E/D "
+    "exponents with announced widths 3E23.16 .. 5E16.9, dense / bigmat / nonbigmat with strings split at "
+    "arbitrary places, null columns, negative row counts, trimmed / untrimmed final records) and OUTPUT2 files "
+    "(label header or not, 32/64-bit, both byte orders, matrices and tables with records split into 1..4 "
+    "physical parts) are produced by an encoder written from the format descriptions; op4.load/read/dir/"
+    "listload in dense, sparse, auto and callable modes and every namelist subset, and op2 directory / "
+    "rdop2mats / set_position + rdop2nt / rdop2matrix / skipop2matrix / rdop2record(form, N) / skipop2record "
+    "/ rdop2tabheaders must return exactly the encoded content and leave the file at the encoder's next offset.",
+    "Trusts the encoders' reading of the format (a self-test part decodes the shipped Nastran sample files "
+    "with the encoder's own layout description); ASCII numbers use two-digit exponents; 64-bit double "
+    "precision layouts follow the reader's documentation (Nastran writes mtype 1/3 there).", "3/C11")
+
 NOT_APPLICABLE = {
 }
 
